@@ -1,4 +1,18 @@
 """Collection of numpy wrapper functions."""
+import numpy
+
 from .cmultiply import cmultiply
 from .cfrom_attributes import cfrom_attributes
 from .cvalues import *
+
+KERNEL_DTYPES = frozenset(
+    numpy.dtype(dtype)
+    for dtype in (bool, numpy.uint32, numpy.int64, numpy.float64, numpy.complex128)
+)
+"""
+Coefficient dtypes the compiled kernels can handle.
+
+`cset_values` and `cadd_values` copy the coefficients byte for byte into the
+storage and silently do nothing for any other dtype, so both the source and
+the destination must have one of these dtypes (and the same one).
+"""
